@@ -363,6 +363,7 @@ func expand(p *packages.Package, f *ast.File, src []byte, s inlineSite, n int, r
 	bad := ""
 	var returns []*ast.ReturnStmt
 	var defers []*ast.DeferStmt
+	var labelIdents []*ast.Ident // the helper's own labels are renamed per expansion
 	topLevel := map[ast.Stmt]bool{}
 	for _, st := range callee.Body.List {
 		topLevel[st] = true
@@ -403,7 +404,14 @@ func expand(p *packages.Package, f *ast.File, src []byte, s inlineSite, n int, r
 		case *ast.ReturnStmt:
 			returns = append(returns, x)
 		case *ast.LabeledStmt:
-			bad = "labels in helper"
+			labelIdents = append(labelIdents, x.Label)
+		case *ast.BranchStmt:
+			if x.Label != nil {
+				labelIdents = append(labelIdents, x.Label)
+			}
+			if x.Tok == token.GOTO {
+				bad = "goto in helper"
+			}
 		}
 		return true
 	})
@@ -434,9 +442,14 @@ func expand(p *packages.Package, f *ast.File, src []byte, s inlineSite, n int, r
 			continue
 		}
 		if i+1 < len(path) {
-			switch path[i+1].(type) {
+			switch par := path[i+1].(type) {
 			case *ast.BlockStmt, *ast.CaseClause, *ast.CommClause:
 				stmt = st
+			case *ast.IfStmt:
+				// `else if cond(helper())`: the inner if is replaced by a block
+				if ifs, isIf := st.(*ast.IfStmt); isIf && par.Else == ast.Stmt(ifs) {
+					stmt = st
+				}
 			}
 		}
 		if stmt != nil {
@@ -475,6 +488,7 @@ func expand(p *packages.Package, f *ast.File, src []byte, s inlineSite, n int, r
 	// Where in the statement is the call evaluated? `region` is the part of the statement whose
 	// evaluation contains the call; calls that are evaluated before it are hoisted too.
 	var region ast.Node
+	scCond := ""       // flag variable of the short-circuit form
 	var preInit string // an if's Init when the call is in Cond
 	tail := false      // `return helper(…)`
 	dropStmt := false  // the statement is just the call
@@ -513,13 +527,39 @@ func expand(p *packages.Package, f *ast.File, src []byte, s inlineSite, n int, r
 	default:
 		return nil, nil, fmt.Sprintf("unsupported statement %T", stmt)
 	}
+	// `if X && helper() {…}` / `if X || helper() {…}`: the helper runs only when X decides nothing;
+	// expanded as  c := false|true; if X | !(X) { <expansion>; c = Y' }; if c {…}
+	scOpen, scAssign := "", ""
+	if ifs, ok := stmt.(*ast.IfStmt); ok && region == ast.Node(ifs.Cond) && nres == 1 {
+		cond := ifs.Cond
+		for {
+			if pe, ok := cond.(*ast.ParenExpr); ok {
+				cond = pe.X
+				continue
+			}
+			break
+		}
+		if be, ok := cond.(*ast.BinaryExpr); ok && (be.Op == token.LAND || be.Op == token.LOR) &&
+			be.Y.Pos() <= s.call.Pos() && s.call.End() <= be.Y.End() && !hasCallOrRecvExcept(be.Y, s.call) && !underShortCircuit(be.Y, s.call) {
+			cv := fmt.Sprintf("_ic%d", n)
+			xs := text(be.X.Pos(), be.X.End())
+			ys := text(be.Y.Pos(), s.call.Pos()) + resNames[0] + text(s.call.End(), be.Y.End())
+			if be.Op == token.LAND {
+				scOpen = "var " + cv + " bool\nif " + xs + " {\n"
+			} else {
+				scOpen = "var " + cv + " bool = true\nif !(" + xs + ") {\n"
+			}
+			scAssign = cv + " = " + ys + "\n}\n"
+			region = be.Y
+			_ = region
+			// the rewritten statement tests the flag
+			scCond = cv
+		}
+	}
 	// not under the right operand of && / ||, not inside a function literal
-	{
+	if scOpen == "" {
 		rpath, _ := astutil.PathEnclosingInterval(f, s.call.Pos(), s.call.End())
 		for i, nd := range rpath {
-			if nd == region {
-				break
-			}
 			if be, ok := nd.(*ast.BinaryExpr); ok && (be.Op == token.LAND || be.Op == token.LOR) && i > 0 {
 				if be.Y.Pos() <= s.call.Pos() && s.call.End() <= be.Y.End() {
 					return nil, nil, "call is evaluated conditionally (right operand of && / ||)"
@@ -527,6 +567,9 @@ func expand(p *packages.Package, f *ast.File, src []byte, s inlineSite, n int, r
 			}
 			if _, ok := nd.(*ast.FuncLit); ok {
 				return nil, nil, "call is inside a function literal"
+			}
+			if nd == region {
+				break
 			}
 		}
 	}
@@ -539,7 +582,7 @@ func expand(p *packages.Package, f *ast.File, src []byte, s inlineSite, n int, r
 	var hoists []hoist
 	var imps [][2]string
 	hoistBad := ""
-	if !dropStmt && !tail {
+	if !dropStmt && !tail && scOpen == "" {
 		var visit func(nd ast.Node, conditional bool)
 		visit = func(nd ast.Node, conditional bool) {
 			ast.Inspect(nd, func(x ast.Node) bool {
@@ -641,7 +684,9 @@ func expand(p *packages.Package, f *ast.File, src []byte, s inlineSite, n int, r
 			sPrime = rewrite(st.Pos(), st.End())
 		}
 	case *ast.IfStmt:
-		if region == ast.Node(st.Cond) {
+		if scCond != "" {
+			sPrime = "if " + scCond + " " + text(st.Body.Pos(), st.End())
+		} else if region == ast.Node(st.Cond) {
 			if nres != 1 {
 				return nil, nil, "multi-value call in a condition"
 			}
@@ -747,12 +792,14 @@ func expand(p *packages.Package, f *ast.File, src []byte, s inlineSite, n int, r
 	if preInit != "" {
 		b.WriteString(preInit + "\n")
 	}
+	b.WriteString(scOpen)
 	for _, h := range hoists {
 		b.WriteString("var " + h.name + " " + h.typ + "\n" + h.name + " = " + text(h.call.Pos(), h.call.End()) + "\n")
 	}
 	// arguments
 	type bind struct{ name, tmp string }
 	var binds []bind
+	renames := map[types.Object]string{} // parameters whose uses in the body are renamed
 	k := 0
 	if callee.Recv != nil && len(callee.Recv.List) == 1 {
 		sel, ok := s.call.Fun.(*ast.SelectorExpr)
@@ -791,9 +838,39 @@ func expand(p *packages.Package, f *ast.File, src []byte, s inlineSite, n int, r
 			if ai >= len(s.call.Args) {
 				return nil, nil, "argument count mismatch"
 			}
+			pt := sig.Params().At(ai).Type()
+			// an argument passed under the parameter's own name (`helper(ctx, txChannel, finish)`
+			// with parameters of those names — the usual result of "extract method"), never
+			// reassigned by the helper, and naming a caller variable that cannot change while the
+			// helper's body runs: the body uses the caller's variable directly. Local closures then
+			// stay directly called (and are expanded in the next round) and no shadow copies hide
+			// the variables they capture.
+			if len(names) > 0 {
+				if id, isIdent := s.call.Args[ai].(*ast.Ident); isIdent && id.Name == names[j].Name {
+					if v, isVar := p.TypesInfo.Uses[id].(*types.Var); isVar && v.Parent() != p.Types.Scope() && !v.IsField() &&
+						sameOrChanNarrowing(v.Type(), pt) &&
+						!assignsTo(p, callee.Body, p.TypesInfo.Defs[names[j]]) && stableDuringCall(p, f, s.call, v) {
+						ai++
+						continue
+					}
+				}
+			}
+			// a function literal passed to a parameter that the helper only calls: defined under the
+			// temporary's name before the expansion and called under that name in the body, so that
+			// it is a directly called local closure (expanded in the next round)
+			if lit, isLit := s.call.Args[ai].(*ast.FuncLit); isLit && len(names) > 0 && names[j].Name != "_" {
+				pobj := p.TypesInfo.Defs[names[j]]
+				if pobj != nil && !assignsTo(p, callee.Body, pobj) && onlyCalled(p, callee.Body, pobj) {
+					tmp := fmt.Sprintf("_ia%d_%d", n, k)
+					k++
+					b.WriteString(tmp + " := " + text(lit.Pos(), lit.End()) + "\n")
+					renames[pobj] = tmp
+					ai++
+					continue
+				}
+			}
 			tmp := fmt.Sprintf("_ia%d_%d", n, k)
 			k++
-			pt := sig.Params().At(ai).Type()
 			ts, more, ok := typeText(p, f, pt)
 			if !ok {
 				return nil, nil, "parameter type not expressible at the call site"
@@ -808,11 +885,20 @@ func expand(p *packages.Package, f *ast.File, src []byte, s inlineSite, n int, r
 			ai++
 		}
 	}
+	if tail && len(renames) > 0 {
+		return nil, nil, "function literal argument in a tail call"
+	}
 	if tail {
 		for _, bd := range binds {
 			b.WriteString(bd.name + " := " + bd.tmp + "\n_ = " + bd.name + "\n")
 		}
-		b.WriteString(ctext(callee.Body.Lbrace+1, callee.Body.Rbrace))
+		tbody := ctext(callee.Body.Lbrace+1, callee.Body.Rbrace)
+		tbase := off(callee.Body.Lbrace + 1)
+		sort.Slice(labelIdents, func(i, j int) bool { return labelIdents[i].Pos() > labelIdents[j].Pos() })
+		for _, li := range labelIdents {
+			tbody = tbody[:off(li.Pos())-tbase] + fmt.Sprintf("%s_il%d", li.Name, n) + tbody[off(li.End())-tbase:]
+		}
+		b.WriteString(tbody)
 		b.WriteString("\n}\n")
 		return &edit{off(stmt.Pos()), off(stmt.End()), b.String()}, imps, ""
 	}
@@ -895,6 +981,19 @@ func expand(p *packages.Package, f *ast.File, src []byte, s inlineSite, n int, r
 	for _, d := range defers {
 		reps = append(reps, rep{off(d.Pos()) - base, off(d.End()) - base, ""})
 	}
+	for _, li := range labelIdents {
+		reps = append(reps, rep{off(li.Pos()) - base, off(li.End()) - base, fmt.Sprintf("%s_il%d", li.Name, n)})
+	}
+	if len(renames) > 0 {
+		ast.Inspect(callee.Body, func(nn ast.Node) bool {
+			if id, ok := nn.(*ast.Ident); ok {
+				if to, ok := renames[p.TypesInfo.Uses[id]]; ok {
+					reps = append(reps, rep{off(id.Pos()) - base, off(id.End()) - base, to})
+				}
+			}
+			return true
+		})
+	}
 	sort.Slice(reps, func(i, j int) bool { return reps[i].a > reps[j].a })
 	for _, r := range reps {
 		body = body[:r.a] + r.t + body[r.b:]
@@ -907,6 +1006,7 @@ func expand(p *packages.Package, f *ast.File, src []byte, s inlineSite, n int, r
 		}
 	}
 	b.WriteString("break\n}\n")
+	b.WriteString(scAssign)
 	b.WriteString(sPrime + "\n}\n")
 	// a define statement's variables must stay visible after the expansion: no outer braces
 	if as, ok := stmt.(*ast.AssignStmt); ok && as.Tok == token.DEFINE {
@@ -1164,4 +1264,135 @@ func breaksOut(st ast.Stmt) bool {
 	}
 	visit(st, 0)
 	return found
+}
+
+// assignsTo: body assigns to obj or takes its address.
+func assignsTo(p *packages.Package, body *ast.BlockStmt, obj types.Object) bool {
+	if obj == nil {
+		return true
+	}
+	found := false
+	ast.Inspect(body, func(n ast.Node) bool {
+		switch x := n.(type) {
+		case *ast.AssignStmt:
+			for _, l := range x.Lhs {
+				if id, ok := l.(*ast.Ident); ok && (p.TypesInfo.Uses[id] == obj || p.TypesInfo.Defs[id] == obj) {
+					found = true
+				}
+			}
+		case *ast.IncDecStmt:
+			if id, ok := x.X.(*ast.Ident); ok && p.TypesInfo.Uses[id] == obj {
+				found = true
+			}
+		case *ast.UnaryExpr:
+			if x.Op == token.AND {
+				if id, ok := x.X.(*ast.Ident); ok && p.TypesInfo.Uses[id] == obj {
+					found = true
+				}
+			}
+		}
+		return true
+	})
+	return found
+}
+
+func sameOrChanNarrowing(arg, prm types.Type) bool {
+	if types.Identical(arg, prm) {
+		return true
+	}
+	ac, ok1 := arg.Underlying().(*types.Chan)
+	pc, ok2 := prm.Underlying().(*types.Chan)
+	return ok1 && ok2 && types.Identical(ac.Elem(), pc.Elem()) && ac.Dir() == types.SendRecv
+}
+
+// stableDuringCall: the caller's variable v cannot change while a callee runs: its address is never
+// taken and no function literal of the enclosing function assigns to it.
+func stableDuringCall(p *packages.Package, f *ast.File, call *ast.CallExpr, v *types.Var) bool {
+	encl := enclosingFunc(f, call.Pos())
+	if encl == nil {
+		return false
+	}
+	ok := true
+	ast.Inspect(encl.Body, func(n ast.Node) bool {
+		switch x := n.(type) {
+		case *ast.UnaryExpr:
+			if x.Op == token.AND {
+				if id, isId := x.X.(*ast.Ident); isId && p.TypesInfo.Uses[id] == types.Object(v) {
+					ok = false
+				}
+			}
+		case *ast.FuncLit:
+			if assignsTo(p, x.Body, v) {
+				ok = false
+			}
+		}
+		return true
+	})
+	return ok
+}
+
+// hasCallOrRecvExcept: e contains a call or receive other than `except` (and what is inside it).
+func hasCallOrRecvExcept(e ast.Expr, except *ast.CallExpr) bool {
+	found := false
+	ast.Inspect(e, func(n ast.Node) bool {
+		if n == ast.Node(except) {
+			return false
+		}
+		switch x := n.(type) {
+		case *ast.CallExpr:
+			found = true
+		case *ast.UnaryExpr:
+			if x.Op == token.ARROW {
+				found = true
+			}
+		case *ast.FuncLit:
+			return false
+		}
+		return true
+	})
+	return found
+}
+
+// underShortCircuit: inside e, call sits in the right operand of a && or ||.
+func underShortCircuit(e ast.Expr, call *ast.CallExpr) bool {
+	res := false
+	ast.Inspect(e, func(n ast.Node) bool {
+		if be, ok := n.(*ast.BinaryExpr); ok && (be.Op == token.LAND || be.Op == token.LOR) {
+			if be.Y.Pos() <= call.Pos() && call.End() <= be.Y.End() {
+				res = true
+			}
+		}
+		return true
+	})
+	return res
+}
+
+// onlyCalled: every use of obj in body is the function position of a plain call.
+func onlyCalled(p *packages.Package, body *ast.BlockStmt, obj types.Object) bool {
+	callFun := map[*ast.Ident]bool{}
+	bad := false
+	ast.Inspect(body, func(n ast.Node) bool {
+		switch x := n.(type) {
+		case *ast.CallExpr:
+			if id, ok := x.Fun.(*ast.Ident); ok {
+				callFun[id] = true
+			}
+		case *ast.GoStmt:
+			if id, ok := x.Call.Fun.(*ast.Ident); ok && p.TypesInfo.Uses[id] == obj {
+				bad = true
+			}
+		case *ast.DeferStmt:
+			if id, ok := x.Call.Fun.(*ast.Ident); ok && p.TypesInfo.Uses[id] == obj {
+				bad = true
+			}
+		}
+		return true
+	})
+	ast.Inspect(body, func(n ast.Node) bool {
+		if id, ok := n.(*ast.Ident); ok && p.TypesInfo.Uses[id] == obj && !callFun[id] {
+			bad = true
+		}
+		return true
+	})
+	return !bad
 }
